@@ -12,8 +12,15 @@ import (
 )
 
 // libECC runs ErrorCorrection_EncodeECC200 for size s under a panic guard.
+// infoSource, when set, replaces the table lookup of libECC (set and cleared around ONE Range, which
+// runs to completion before the next sub-space starts).
+var infoSource func(dm.Symbol) (*encoder.SymbolInfo, error)
+
 func libECC(l *mc.Local, s dm.Symbol, data []byte, cs rcase) ([]byte, bool) {
 	si, err := libInfo(s)
+	if infoSource != nil {
+		si, err = infoSource(s)
+	}
 	if err != nil {
 		chk.Violation(fmt.Sprintf("C08/symbolinfo/%v/lookup", s), fmt.Sprintf("SymbolInfo_Lookup pinned to %v: %v", s, err), rcase{Sub: "tables"})
 		return nil, false
@@ -533,4 +540,47 @@ func runECCLongHistories() {
 				}
 			}
 		})
+}
+
+// runECCConstructedInfo: the SymbolInfo handed to ErrorCorrection_EncodeECC200 need not be the table's
+// own object: the constructors are exported (NewSymbolInfo, NewSymbolInfoRS,
+// NewDataMatrixSymbolInfo144) and a copy of a table entry is a value like any other. For all 30
+// sizes the result with a caller-constructed SymbolInfo of the same attributes, and with a struct
+// copy of the table entry, equals the reference.
+func runECCConstructedInfo() {
+	type src struct {
+		name string
+		mk   func(dm.Symbol) (*encoder.SymbolInfo, error)
+	}
+	srcs := []src{
+		{"constructed", func(s dm.Symbol) (*encoder.SymbolInfo, error) {
+			if s.Rows == 144 {
+				return encoder.NewDataMatrixSymbolInfo144(), nil
+			}
+			return encoder.NewSymbolInfoRS(s.Rect, s.DataCW, s.ECCW, s.RegionCols, s.RegionRows, s.HRegions*s.VRegions, s.DataCW/s.Blocks, s.ECCW/s.Blocks), nil
+		}},
+		{"copied", func(s dm.Symbol) (*encoder.SymbolInfo, error) {
+			si, err := libInfo(s)
+			if err != nil {
+				return nil, err
+			}
+			c := *si
+			return &c, nil
+		}},
+	}
+	for _, sc := range srcs {
+		infoSource = sc.mk
+		chk.Range("ErrorCorrection_EncodeECC200 with a "+sc.name+" SymbolInfo (not the table's own object): all 30 sizes x {counting, quadratic, 0x55, all-ones} vectors == reference", len(dm.Symbols),
+			func(i int) string { return fmt.Sprint(dm.Symbols[i]) },
+			func(l *mc.Local, i int) {
+				s := dm.Symbols[i]
+				for idx := 1; idx < fixedVecs; idx++ {
+					name, data := famVec(s.DataCW, idx)
+					if !eccCompare(l, s, name+" ("+sc.name+" SymbolInfo)", data, rcase{Sub: "ecci", Rows: s.Rows, Cols: s.Cols, Vec: name + " (" + sc.name + " SymbolInfo)", Index: idx}, true) {
+						return
+					}
+				}
+			})
+		infoSource = nil
+	}
 }
